@@ -110,8 +110,13 @@ PROPS = {
                                        "that every resident TTL entry is filed in the bucket of its deadline is checked after every step by comparing the bucket snapshot with the model and by the sweep-completeness monitor; a Lean proof of that bucket invariant is not part of this check yet"],
     },
     # --- not yet claimed in MANIFEST (theorem modules pending): correspondence + monitors only ---
-    "C02": {"module": None, "jobs": [cache_job(r"\.(store|ret|callbacks|buffer|clear)$", extra=["--collisions", "1", "--w-clear", "5"])], "assumptions": CACHE_ASSUME},
-    "C04": {"module": None, "jobs": [cache_job(r"\.(store|expiry|policy|ret|callbacks|buffer|len)$", extra=["--w-ttl", "50"])], "assumptions": CACHE_ASSUME},
+    "C02": {"module": "StrettoModel.Props.C02", "jobs": [cache_job(r"\.(store|ret|callbacks|buffer|clear)$", extra=["--collisions", "1", "--w-clear", "5"])],
+            "branches": ["get.hit", "get.miss", "get.conflict_miss", "getmut.hit", "insert.update", "insert.new_over_resident", "remove.resident", "p.clear.buf1", "delete.other_conflict"],
+            "assumptions": CACHE_ASSUME + ["values are opaque ids: the model carries a value id where the code carries a V; that the code hands back the V it stored under that id (no aliasing inside a shard's HashMap) is std's contract and is sampled by the correspondence (every returned value is compared)",
+                                           "concurrent lookups during an in-place update are serialised by the shard lock; that atomicity (never a mixture of two values) is the RwLock's contract, not a theorem here"]},
+    "C04": {"module": "StrettoModel.Props.C04", "jobs": [cache_job(r"\.(store|expiry|policy|ret|callbacks|buffer|len)$", extra=["--w-ttl", "50"])],
+            "branches": ["padd.room", "padd.evicting", "padd.rejected", "insert.update", "insert.dropped", "remove.resident", "tick.reclaimed", "tick.idle"],
+            "assumptions": CACHE_ASSUME + ["the theorems are per-step squares (an accepted insert with room is applied and retrievable; updates and removes apply at once; nothing is swept before its deadline); their composition over arbitrary histories is carried by the run-time no-loss monitor, which tracks capacity pressure and collisions from the implementation's own history"]},
     "C06": {"module": "StrettoModel.Props.C06",
             "jobs": [cache_job(r"\.(store|policy|callbacks|len|buffer)$", extra=["--collisions", "1"], quick_lives=14),
                      cache_job(r"\.(store|policy|callbacks|len|buffer)$", name="cache-plain", quick_lives=14)],
